@@ -148,6 +148,9 @@ impl Interpreter {
         // That feels like overkill so for now we're just doing this.
         match first_word.to_ascii_uppercase().as_str() {
             "RUN" => {
+                // Forget any reply that was provided but never consumed
+                // (e.g. the user broke in right after answering an INPUT).
+                self.input = None;
                 self.variables = Variables::default();
                 self.arrays = Arrays::default();
                 self.program.run_from_first_numbered_line();
